@@ -34,6 +34,14 @@ pub enum Step {
     /// restart the client so that it dies at its k-th durable write from then on (then restart it normally)
     CrashAtWrite(u8),
     RetryTower(u8),
+    /// from now on tower t holds every reply back for this many 100 ms (requests stay in flight)
+    Slow(u8, u8),
+    /// abandontower t, sent without waiting for whatever is in flight
+    Abandon(u8),
+    /// wait (up to 6 s) until tower t is serving a request of the client, then abandontower t
+    AbandonInFlight(u8),
+    /// wait (up to 9 s) until tower t's idle retrier is flagged to start again, then abandontower t at once
+    AbandonWhenWaking(u8),
 }
 
 #[derive(Debug, Clone, Serialize, Deserialize)]
@@ -110,6 +118,8 @@ struct Run {
     towers: Vec<FakeTower>,
     /// revocations whose hook call was answered
     answered: BTreeSet<u8>,
+    /// towers the user has abandoned (indices): no obligation any more, and they must stay gone
+    abandoned: BTreeSet<usize>,
     kills: u32,
     crashes: u32,
     dup: u32,
@@ -190,8 +200,16 @@ impl Run {
                 return;
             }
         };
-        for t in &self.towers {
+        for (ti, t) in self.towers.iter().enumerate() {
             let tid = t.id_hex();
+            if self.abandoned.contains(&ti) {
+                // "Abandoning a tower deletes all ... that tower's records" (C18): nothing of the client may bring it back
+                if towers.contains(&tid) {
+                    self.violations.push(Violation { property: "C18".into(), signature: "abandoned-tower-is-back".into(), message: format!("{when}: tower {} was abandoned by the user (abandontower answered) and is in the towers table again without a new registertower", &tid[..8]) });
+                    return;
+                }
+                continue;
+            }
             if !towers.contains(&tid) || misbehaving.contains(&tid) {
                 continue;
             }
@@ -282,8 +300,25 @@ impl Campaign for C05 {
                     2 => (1u8..=5, 0u8..3).prop_map(|(n, a)| Step::RevokeAndKill(n, a)),
                     3 => (1u8..9).prop_map(Step::CrashAtWrite),
                     1 => (0..towers).prop_map(Step::RetryTower),
+                    2 => (0..towers, 0u8..12).prop_map(|(t, d)| Step::Slow(t, d)),
+                    1 => (0..towers).prop_map(Step::Abandon),
+                    1 => (0..towers).prop_map(Step::AbandonInFlight),
+                    1 => (0..towers).prop_map(Step::AbandonWhenWaking),
                 ];
-                proptest::collection::vec(step, 2..10).prop_map(move |steps| Case { towers, steps })
+                // one history in six opens with data pending at every tower and one slow tower coming back:
+                // the deep state (a retrier's request in flight) that later steps can then interfere with
+                (proptest::collection::vec(step, 2..10), 0u8..6, 0..towers, 1u8..=5).prop_map(move |(mut steps, opening, t, n)| {
+                    if opening == 0 {
+                        let mut s: Vec<Step> = (0..towers).map(Step::Down).collect();
+                        s.push(Step::Revoke(n));
+                        s.push(Step::Slow(t, 10));
+                        s.push(Step::Up(t));
+                        steps.truncate(6);
+                        s.append(&mut steps);
+                        steps = s;
+                    }
+                    Case { towers, steps }
+                })
             })
             .boxed()
     }
@@ -294,7 +329,7 @@ impl Campaign for C05 {
         let _ = std::fs::remove_dir_all(&dir);
         let towers: Vec<FakeTower> = (0..case.towers).map(|i| FakeTower::start(port_for(w, i as usize), i)).collect();
         let opts = PluginOpts { max_retry_time: 2, auto_retry_delay: 3, max_retry_interval: 1 };
-        let mut run = Run { p: None, dir: dir.clone(), opts, towers, answered: BTreeSet::new(), kills: 0, crashes: 0, dup: 0, violations: vec![], harness_trouble: false };
+        let mut run = Run { p: None, dir: dir.clone(), opts, towers, answered: BTreeSet::new(), abandoned: BTreeSet::new(), kills: 0, crashes: 0, dup: 0, violations: vec![], harness_trouble: false };
         run.restart(None);
         let mut classes: BTreeSet<String> = BTreeSet::new();
         // registration with every tower (valid)
@@ -357,6 +392,66 @@ impl Campaign for C05 {
                     run.restart(Some(*k as u64));
                     classes.insert("abort-at-durable-write".into());
                 }
+                Step::Slow(t, d) => {
+                    run.towers[*t as usize].set_delay(*d as u64 * 100);
+                    if *d > 0 {
+                        classes.insert("slow-tower".into());
+                    }
+                }
+                Step::Abandon(t) => {
+                    run.ensure_alive();
+                    let tid = run.towers[*t as usize].id_hex();
+                    if let Some(p) = run.p.as_mut() {
+                        if p.call("abandontower", json!([tid]), Duration::from_secs(15)).is_ok() {
+                            run.abandoned.insert(*t as usize);
+                        }
+                    }
+                    classes.insert("abandon".into());
+                }
+                Step::AbandonInFlight(t) => {
+                    run.ensure_alive();
+                    let deadline = Instant::now() + Duration::from_secs(6);
+                    while Instant::now() < deadline && run.towers[*t as usize].in_flight() == 0 {
+                        std::thread::sleep(Duration::from_millis(10));
+                    }
+                    let caught = run.towers[*t as usize].in_flight() > 0;
+                    let tid = run.towers[*t as usize].id_hex();
+                    if let Some(p) = run.p.as_mut() {
+                        if p.call("abandontower", json!([tid]), Duration::from_secs(15)).is_ok() {
+                            run.abandoned.insert(*t as usize);
+                        }
+                    }
+                    classes.insert(if caught { "abandon-with-request-in-flight".into() } else { "abandon".into() });
+                    // let the reply arrive and be handled
+                    std::thread::sleep(Duration::from_millis(1200));
+                }
+                Step::AbandonWhenWaking(t) => {
+                    run.ensure_alive();
+                    let tid = run.towers[*t as usize].id_hex();
+                    let needle = format!("Flagging {tid} for retry");
+                    let seen_before = run.p.as_ref().map_or(0, |p| p.log_lines().iter().filter(|(_, l)| l.contains(&needle)).count());
+                    let deadline = Instant::now() + Duration::from_secs(9);
+                    let mut caught = false;
+                    while Instant::now() < deadline {
+                        let n = run.p.as_ref().map_or(0, |p| p.log_lines().iter().filter(|(_, l)| l.contains(&needle)).count());
+                        if n > seen_before {
+                            caught = true;
+                            break;
+                        }
+                        // only a tower with something pending has a retrier at all
+                        if run.p.as_ref().map_or(true, |p| !p.log_lines().iter().any(|(_, l)| l.contains(&tid) && (l.contains("Retrying tower") || l.contains("to pending")))) && Instant::now() + Duration::from_secs(8) < deadline {
+                            break;
+                        }
+                        std::thread::sleep(Duration::from_millis(10));
+                    }
+                    if let Some(p) = run.p.as_mut() {
+                        if p.call("abandontower", json!([tid]), Duration::from_secs(15)).is_ok() {
+                            run.abandoned.insert(*t as usize);
+                        }
+                    }
+                    classes.insert(if caught { "abandon-while-retrier-wakes-up".into() } else { "abandon".into() });
+                    std::thread::sleep(Duration::from_millis(1300));
+                }
                 Step::RetryTower(t) => {
                     run.ensure_alive();
                     let tid = run.towers[*t as usize].id_hex();
@@ -404,7 +499,7 @@ pub fn run(ctx: &Ctx) -> i32 {
     stats.merge(regress);
     let mut ev = Evidence::default();
     ev.level = "fault_enumeration".into();
-    ev.rule = "one case = a fresh real watchtower-client process + 1-3 scripted towers + 2-9 steps: revocations (numbers 1-5, repeats are duplicate notifications), a tower's answer to add_appointment from now on (accept / subscription error / rejection codes / garbage bodies / 502 / reset / wrong or malformed signature / wrong shape), tower down / up, waits, SIGKILL at rest, SIGKILL after the towers served 0-2 requests of an in-flight revocation, abort at the client's k-th durable write (k in 1..8), retrytower. After EVERY step and again after 1.5 s: for every registered, non-misbehaving tower and every revocation whose hook call was answered, the sqlite file holds exactly one of {verifying receipt, pending + body, invalid + body} (all tables read in one read transaction; two records at once count only if they stay for 1.2 s, because the client moves a record with two statements); the client still answers listtowers and no task of it has panicked. Non-trivial = some tower misbehaved / was down, or the client was killed; distinct = distinct (behaviour classes, kills, crashes).".into();
+    ev.rule = "one case = a fresh real watchtower-client process + 1-3 scripted towers + 2-9 steps: revocations (numbers 1-5, repeats are duplicate notifications), a tower's answer to add_appointment from now on (accept / subscription error / rejection codes / garbage bodies / 502 / reset / wrong or malformed signature / wrong shape), tower down / up, waits, slow towers (replies held back 0-1.1 s, so requests are in flight when the next step happens), abandontower (at once / when the tower has a request in flight / when its idle retrier is flagged to start), SIGKILL at rest, SIGKILL after the towers served 0-2 requests of an in-flight revocation, abort at the client's k-th durable write (k in 1..8), retrytower. After EVERY step and again after 1.5 s: for every registered, non-misbehaving tower and every revocation whose hook call was answered, the sqlite file holds exactly one of {verifying receipt, pending + body, invalid + body} (all tables read in one read transaction; two records at once count only if they stay for 1.2 s, because the client moves a record with two statements); the client still answers listtowers and no task of it has panicked. Non-trivial = some tower misbehaved / was down, or the client was killed; distinct = distinct (behaviour classes, kills, crashes).".into();
     ev.assumptions = vec!["the client is killed by SIGKILL or abort(): sqlite's atomic commit is trusted".into(), "an RPC not answered within 15 s counts as never answered".into()];
     ev.extra.insert("regression_cases_replayed".into(), json!(replayed));
     runner::conclude(ctx, "C05", stats, ev, started)
